@@ -432,7 +432,7 @@ func TestC04Odd(t *testing.T) {
 		"embedded-struct": oddEmbedded{embeddedInner{1, "in"}, 2}, "exported-struct-field": oddExportedEmbedded{embeddedInner{1, "in"}, 2},
 		"map[string]string": map[string]string{"Name": "x"}, "map[int]int": map[int]int{1: 2}, "pointer-to-pointer": &pone,
 		"map-with-odd-values": map[string]interface{}{"Name": uint8(3), "Count": []interface{}{nil, map[string]interface{}{"a": nil}, [2]int{1, 2}}, "F": func() {}},
-		"empty-struct": struct{}{}, "bool": true, "float": 1.5,
+		"empty-struct":        struct{}{}, "bool": true, "float": 1.5,
 	}
 	scripts := []string{"return Name;", "return Count;", "return 1;", "return len(Name) + 1;", "if (Name) { return true; } return false;", "foreach k in Count { print(k); } return Name;"}
 	for name, obj := range objects {
